@@ -132,9 +132,9 @@ CHECKS = {
     },
     "C10": {
         "level": "fault_enumeration", "floor": 10,
-        "rule": "per finished history, for EVERY stored item: delete, empty, truncate to len-1 and two sampled lengths, 8 sampled single-bit flips (thorough: every byte position for items <= 4 KiB); 6 random deletion subsets; 18 junk injections (bad names, out-of-range indices, wrong hashes, valid hashes of other bytes); "
+        "rule": "per finished history, for EVERY stored item: delete, empty, truncate to len-1 and two sampled lengths, 8 sampled single-bit flips (thorough: every byte position for items <= 4 KiB); 6 random deletion subsets; about 40 junk injections (bad names, out-of-range indices, wrong hashes, valid hashes of other bytes, intact bytes under near-miss names such as a prefix of the digest or upper-case hex, structurally wrong blocks stored under the correct hash of their bytes); "
                 "by two routes (open fresh; refresh on a replica that had loaded an intact prefix). The call must return an error, or the state must equal the reference model of the intact causally complete subset and a replica opened on the intact subset, never panic, and every value returned must hash to the digest in its revision id. "
-                "live corruption: bits of an already indexed pack are flipped behind the adapter with MELDA_DATA_CACHE_CAP=1; get_value must be Err or exactly the recorded value. damage between refreshes: a pack is damaged in place after it was indexed and before a held-back block that names it becomes deliverable; that block must never be applied. non-trivial = damage hit an item other blocks depend on.",
+                "live corruption: bits of an already indexed pack are flipped behind the adapter with MELDA_DATA_CACHE_CAP=1; get_value must be Err or exactly the recorded value. damage between refreshes: a pack is damaged in place after it was indexed and before a held-back block that names it becomes deliverable; that block must never be applied. damaged local copy: a block is damaged locally, the same block is melded from an intact peer, refresh: the live replica must equal the reference state of its own storage and a fresh open. compression wrappers: the stored (compressed) bytes are truncated / emptied / bit-flipped under Deflate and Brotli; decoders must not panic and the result is judged against what the wrapper still decodes. non-trivial = damage hit an item other blocks depend on.",
         "assumptions": ASSUME_COMMON + ["no attempt is made to forge an item whose damaged bytes still hash to its name"],
         "jobs": [mode("damage", "c10", (1280, 8000), args={"profile": "conflict"}), mode("damage-dense", "c10", (0, 400), args={"profile": "conflict", "dense": 1}, tier="thorough")],
     },
